@@ -1027,6 +1027,12 @@ func runP(f []string) string {
 	case "zooL":
 		vm.Set("a", &zoo.L)
 		goAppend = func() { zoo.L = append(zoo.L, Inner{7}, Inner{8}, Inner{9}) }
+	case "nilFunc":
+		vm.Set("a", &struct {
+			F func(int) int
+			G func()
+			M map[string]func()
+		}{M: map[string]func(){"k": nil}})
 	case "nested":
 		vm.Set("a", &nested)
 		goAppend = func() { nested = append(nested, []S{{5}}, nil, nil) }
@@ -1099,6 +1105,8 @@ func runP(f []string) string {
 			src = "a[Symbol.iterator]; a[Symbol('x')] = 1"
 		case "neg":
 			src = "a[-1] = 1; a[-1]; delete a[-1]; a['x'] = 1; a['x']; a[1.5] = 2; a[100] = 1"
+		case "call":
+			src = "if (typeof a.F === 'function') a.F(1); if (typeof a.G === 'function') a.G(); if (a.M && typeof a.M.k === 'function') a.M.k(); if (typeof a[0] === 'function') a[0]()"
 		case "goappend":
 			if goAppend != nil {
 				goAppend()
